@@ -38,3 +38,13 @@ From TrV Require Import Proofs.Assemble.
 Theorem C02_full : C02_full_statement.
 Proof. exact C02_assembled. Qed.
 Print Assumptions C02_full.
+
+(* tie to the source: the model's reverse step and best-access selection are the control skeleton instantiated with
+   the guards tools/gen_guards.py translated from reverse_calculation.cpp AS IT IS NOW (gen/Guards.v) *)
+From TrV Require Import Proofs.GuardsTie.
+Theorem C02_reverse_step_is_code : forall d p k st c, rev_step_code d p k st c = rev_step d p k false st c.
+Proof. exact rev_step_tie. Qed.
+Print Assumptions C02_reverse_step_is_code.
+Theorem C02_best_access_is_code : forall p k st, best_access_sk G.gen_rev_best_time G.gen_rev_best_ok p k st = best_access p k st.
+Proof. exact best_access_tie. Qed.
+Print Assumptions C02_best_access_is_code.
